@@ -376,6 +376,13 @@ def c08_scripts(tier):
     S.append(("dense-lines", ["out " + h(dense)], dense))
     blob = bytes(rnd.randrange(32, 127) for _ in range(400000)) + b"\n"
     S.append(("dense-long-line", ["out " + h(blob)], blob))
+    # one burst mixing many short lines with a very long one (short lines before and after it), at sizes
+    # around 64 KiB and counts around 128
+    def mixed(nshort, longlen, after):
+        return b"".join(b"short line %04d\n" % i for i in range(nshort)) + b"L" * (longlen - 1) + b"\n" + b"".join(b"after %d\n" % i for i in range(after))
+    for nshort, longlen, after in ((300, 100000, 5), (127, 65536, 1), (128, 65535, 0), (129, 65537, 2), (1000, 200000, 300)):
+        m = mixed(nshort, longlen, after)
+        S.append(("mixed-burst-%d-%d-%d" % (nshort, longlen, after), ["out " + h(m)], m))
     if tier != "quick":
         S.append(("three-ticks-inside-line", ["out " + h(b"p"), "sleep 600", "out " + h(b"q"), "sleep 600", "out " + h(b"r"), "sleep 600", "out " + h(b"s\n")], b"pqrs\n"))
         S.append(("crlf", ["out " + h(b"a\r\nb\r\n")], b"a\r\nb\r\n"))
